@@ -86,3 +86,11 @@ split; first exact: mirror_pos_odd.
 exact: bound_pos.
 Qed.
 Print Assumptions C14_extrap_positions.
+
+(* ---- the code of xitorch/_utils/bcast.py as translated from /repo on this run (Gen/PyBcast.v): for two or more
+   shapes get_bcasted_dims IS the broadcast shape of Base/Shapes.v; with no shape it raises.  Statement:
+   Proofs/PyBcastProofs.v, translated_bcast_statement. ---- *)
+From XV Require Proofs.PyBcastProofs.
+Theorem C14_translated_bcast_is_model : PyBcastProofs.translated_bcast_statement.
+Proof. exact PyBcastProofs.translated_bcast. Qed.
+Print Assumptions C14_translated_bcast_is_model.
